@@ -94,6 +94,7 @@ func (ds *AnySource) RunDoneActivate() {
 	defer ds.sourceStateLock.Unlock()
 	ds.sourceState = Active
 	ds.runDone.Add(1)
+	ds.thisRunDone = make(chan struct{})
 }
 
 // RunDoneDeactivate calls Done on ds.runDone, this should only be called (by defer) in Start
@@ -101,6 +102,7 @@ func (ds *AnySource) RunDoneDeactivate() {
 	ds.sourceStateLock.Lock()
 	ds.sourceState = Inactive
 	ds.runDone.Done()
+	close(ds.thisRunDone)
 	vevent("RunDone.deactivate")
 	ds.sourceStateLock.Unlock()
 }
@@ -239,10 +241,11 @@ func (ds *AnySource) Stop() error {
 	}
 	ds.sourceState = Stopping
 	closeIfOpen(ds.abortSelf)
+	done := ds.thisRunDone // wait for the run being stopped, not for a run started later
 	ds.sourceStateLock.Unlock()
 	vpoint("Stop.signalled")
 
-	ds.RunDoneWait()
+	<-done
 	vpoint("Stop.waited")
 	ds.groupKeysSorted = make([]GroupIndex, 0)
 	if ds.writingState.Active { // if writing, Stop writing
@@ -336,6 +339,7 @@ type AnySource struct {
 	sourceState         SourceState
 	sourceStateLock     sync.Mutex // guards sourceState
 	runDone             sync.WaitGroup
+	thisRunDone         chan struct{} // closed when the currently active run has ended
 	readCounter         int
 	channelsPerPixel    int
 }
